@@ -138,6 +138,13 @@ def _inst(tier):
             for ns in ([2, 1, 1], [1, 2, 1], [1, 1, 2]):
                 for tm in ([1, 1, 1], [1, 1, 0], [0, 1, 1], [1, 0, 1]):
                     out.append({"op": name, "S": 3, "n": ns, "terms": tm, "G": 2})
+        if name in ("zip", "combine_latest", "fork_join", "op_fork_join", "with_latest_from"):
+            # a source that stays empty next to sources that emit (an empty source completing *after* another one has emitted)
+            for ns in ([1, 0], [0, 1], [2, 0], [0, 2]):
+                out.append({"op": name, "S": 2, "n": ns, "terms": None, "G": 3})
+            for ns in ([1, 0, 1], [1, 1, 0], [0, 1, 1]):
+                for tm in ([1, 1, 1], [0, 1, 0], [1, 1, 0]):
+                    out.append({"op": name, "S": 3, "n": ns, "terms": tm, "G": 2})
         for S, n in ((1, 2), (2, 0), (2, 1), (2, 2), (3, 1)) + (((3, 2),) if tier != "quick" else ()):
             if S == 1 and name.startswith("op_"):
                 continue
